@@ -187,7 +187,7 @@ ParentsHold ==
 \* reading the views of a range returns exactly the columns set with a timestamp in the range
 ReadsTruth == \A x \in SeqRange(st.allr) : ReadRange(q, x[1], x[2], vc, DOMAIN vc) = TruthRange(x[1], x[2])
 StdTruth == (~nsv) => std = {c \in Cols : \E x \in truth : x[1] = c}
-BndsAligned == \A b \in SeqRange(st.bnds) : Aligned(q, b)
+BndsAligned == (cnt.s0 + cnt.s1 + cnt.clr = 0) => \A b \in SeqRange(st.bnds) : Aligned(q, b)
 
 Emit == (Gen /\ Len(hist) = Depth /\ pend = "") => PrintT(<<"BEH", ToJson(hist)>>)
 =============================================================================
